@@ -2,43 +2,86 @@
 
 MODULES = {
     "lib": dict(host="src/lib.rs", file="lib_harness.rs"),
+    "multinomial": dict(host="src/solve/multinomial.rs", file="multinomial_harness.rs", prefix="solve::multinomial::"),
     "data": dict(host="src/solve/data.rs", file="data_harness.rs", prefix="solve::data::"),
 }
 
 # contract attributes spliced above real fn items (bodies untouched)
-ATTRS = [
-    dict(file="src/solve/data.rs", path="impl RegretParams / fn gen_discount", lines=[
-        "kani::requires(discount == f64::NEG_INFINITY || discount == 0.0 || discount == f64::INFINITY)",
-        "kani::ensures(|r: &f64| (discount != f64::NEG_INFINITY || *r == 0.0) && (discount != 0.0 || *r == 0.5) && (discount != f64::INFINITY || *r == 1.0))",
-    ]),
-]
+ATTRS = []
 
-def H(name, module, obligation, tier="quick", bounded=None, solver_cli=None, timeout=600, complete=False):
+def H(name, module, obligation, tier="quick", bounded=None, solver_cli=None, timeout=600, complete=False, group=None):
     return dict(name=name, path="%sverif_kani_%s::%s" % (MODULES[module].get("prefix", ""), module, name), module=module, obligation=obligation,
-                tier=tier, bounded=bounded, solver_cli=solver_cli, timeout=timeout, complete=complete)
+                tier=tier, bounded=bounded, solver_cli=solver_cli, timeout=timeout, complete=complete, group=group)
 
 B3 = "slices of length <= 3; every element any finite f64 (regrets |r| <= 1e150 where stated); all u64 iteration numbers"
 HARNESSES = {
+    "C01": [
+        H("c01_strategies_info_accessors", "lib", "C01.K.StrategiesInfo", complete=True),
+        H("playernum_ind", "lib", "K.playernum_ind", complete=True),
+        H("c01_get_info_recall_tree", "lib", "C01.K.get_info.recall_tree",
+          bounded="ONE concrete 7-node perfect-recall tree; every profile with probabilities in {0, 1/2, 1}"),
+    ],
+    "C13": [
+        H("c13_named_len_prefix_and_content", "lib", "C13.K.named.len_prefix",
+          bounded="player one: infosets of 2 and 3 actions + one single-action infoset; entries any f64 in [0,1]"),
+    ],
+    "C14": [
+        H("c14_import_slow_accepts_iff", "lib", "C14.K.import_slow.accepts_iff",
+          bounded="one multi-action infoset (2 actions) + one single-action infoset; 2 entries x 2 (action, weight) pairs; names from a 6-value alphabet; weights any f64"),
+    ],
+    "C19": [
+        H("c19_distance_well_defined", "lib", "C19.K.distance.well_defined", bounded="one infoset of 2 actions / empty player; entries any f64 in [0,1]; p in {1, 2} (powf modelled exactly)"),
+        H("c19_distance_range_upper", "lib", "C19.K.distance.range_upper", bounded="as above"),
+        H("c19_distance_range_residual", "lib", "C19.K.distance.range_residual", bounded="as above"),
+        H("c19_distance_panics_other_game", "lib", "C19.K.distance.panics", bounded="as above"),
+        H("c19_distance_panics_nonpositive_p", "lib", "C19.K.distance.panics", bounded="as above; p any f64 with !(p > 0)"),
+    ],
     "C02": [
-        H("c02_cum_regret_formula", "data", "C02.K.cum_regret.formula", bounded=B3),
+        H("c02_regret_bound_accessors", "lib", "C02.K.RegretBound.max", complete=True),
+        H("c02_cum_regret_formula_n1", "data", "C02.K.cum_regret.formula", bounded=B3),
+        H("c02_cum_regret_formula_n2", "data", "C02.K.cum_regret.formula", bounded=B3),
+        H("c02_cum_regret_formula_n3", "data", "C02.K.cum_regret.formula", bounded=B3),
+        H("c02_cum_regret_empty", "data", "C02.K.cum_regret.formula", bounded="empty slice; all iteration numbers"),
     ],
     "C05": [
-        H("c05_avg_strat_distribution", "data", "C05.K.avg_strat.distribution", bounded=B3),
+        H("c05_avg_strat_distribution_n1", "data", "C05.K.avg_strat.distribution", bounded=B3),
+        H("c05_avg_strat_distribution_n2", "data", "C05.K.avg_strat.distribution", bounded=B3),
+        H("c05_avg_strat_distribution_n3", "data", "C05.K.avg_strat.distribution", bounded=B3),
         H("c05_regret_infoset_new", "data", "C05.K.RegretInfoset_new.uniform", bounded="1..3 actions"),
-        H("c08_regret_match_positive", "data", "C05.K.regret_match.distribution", bounded=B3),
-        H("c08_regret_match_fallbacks", "data", "C05.K.regret_match.distribution", bounded=B3),
-        H("c05_regret_match_softmax", "data", "C05.K.regret_match.softmax", bounded=B3 + "; exp replaced by a sound interval model"),
-        H("c02_cum_regret_formula", "data", "C05.K.cum_regret.finite_nonneg", bounded=B3),
+        H("c08_regret_match_positive_n1", "data", "C05.K.regret_match.distribution", bounded=B3),
+        H("c08_regret_match_positive_n2", "data", "C05.K.regret_match.distribution", bounded=B3),
+        H("c08_regret_match_positive_n3", "data", "C05.K.regret_match.distribution", bounded=B3),
+        H("c08_regret_match_fallbacks_n1", "data", "C05.K.regret_match.distribution", bounded=B3),
+        H("c08_regret_match_fallbacks_n2", "data", "C05.K.regret_match.distribution", bounded=B3),
+        H("c08_regret_match_fallbacks_n3", "data", "C05.K.regret_match.distribution", bounded=B3),
+        H("c05_regret_match_softmax_n1", "data", "C05.K.regret_match.softmax", bounded=B3 + "; exp replaced by a sound interval model"),
+        H("c05_regret_match_softmax_n2", "data", "C05.K.regret_match.softmax", bounded=B3 + "; exp replaced by a sound interval model"),
+        H("c05_regret_match_softmax_n3", "data", "C05.K.regret_match.softmax", bounded=B3 + "; exp replaced by a sound interval model"),
+        H("c02_cum_regret_formula_n1", "data", "C05.K.cum_regret.finite_nonneg", bounded=B3),
+        H("c02_cum_regret_formula_n2", "data", "C05.K.cum_regret.finite_nonneg", bounded=B3),
+        H("c02_cum_regret_formula_n3", "data", "C05.K.cum_regret.finite_nonneg", bounded=B3),
     ],
     "C08": [
         H("c08_presets", "data", "C08.K.presets", complete=True),
         H("c08_new_accepts", "data", "C08.K.new.accepts", complete=True),
         H("c08_new_rejects", "data", "C08.K.new.rejects", complete=True),
         H("c08_gen_discount_special", "data", "C08.K.gen_discount.special", complete=True),
-        H("c08_regret_match_positive", "data", "C08.K.regret_match.positive", bounded=B3),
-        H("c08_regret_match_fallbacks", "data", "C08.K.regret_match.fallbacks", bounded=B3),
-        H("c08_discount_cum_regret", "data", "C08.K.discount_cum_regret", bounded=B3),
-        H("c08_discount_average_strat", "data", "C08.K.discount_average_strat", bounded=B3),
+        H("c08_regret_match_positive_n1", "data", "C08.K.regret_match.positive", bounded=B3),
+        H("c08_regret_match_positive_n2", "data", "C08.K.regret_match.positive", bounded=B3),
+        H("c08_regret_match_positive_n3", "data", "C08.K.regret_match.positive", bounded=B3),
+        H("c08_regret_match_fallbacks_n1", "data", "C08.K.regret_match.fallbacks", bounded=B3),
+        H("c08_regret_match_fallbacks_n2", "data", "C08.K.regret_match.fallbacks", bounded=B3),
+        H("c08_regret_match_fallbacks_n3", "data", "C08.K.regret_match.fallbacks", bounded=B3),
+        H("c08_discount_cum_regret_n1", "data", "C08.K.discount_cum_regret", bounded=B3),
+        H("c08_discount_cum_regret_n2", "data", "C08.K.discount_cum_regret", bounded=B3),
+        H("c08_discount_cum_regret_n3", "data", "C08.K.discount_cum_regret", bounded=B3),
+        H("c08_discount_average_strat_n1", "data", "C08.K.discount_average_strat", bounded=B3),
+        H("c08_discount_average_strat_n2", "data", "C08.K.discount_average_strat", bounded=B3),
+        H("c08_discount_average_strat_n3", "data", "C08.K.discount_average_strat", bounded=B3),
+    ],
+    "C10": [
+        H("c10_multinomial_inverse_cdf", "multinomial", "C10.K.multinomial.inverse_cdf",
+          bounded="1..4 weights, each any f64 in [0,1]; every 64-bit generator output"),
     ],
     "C18": [
         H("c18_truncate_valid", "lib", "C18.K.truncate.valid",
